@@ -6,7 +6,7 @@ import ast
 from ..model import FS, FCFG
 from . import names
 from .common import site_of
-from .flow import (helpers_of, both_answers, Oblig, calls, events, deps_of, arg_deps, SELF, P, has_fact, escaping_raises, short_exc, _path_to)
+from .flow import (own, helpers_of, both_answers, Oblig, calls, events, deps_of, arg_deps, SELF, P, has_fact, escaping_raises, short_exc, _path_to)
 
 EXPLANATION = (
     "Decides: the completer unifies only fresh copies of both feature structures and gives the copy to the new state "
@@ -41,7 +41,7 @@ def run(eng, rep, tier):
               "both operands of the destructive unification are copies made in this call",
               "the completer unifies a feature structure that belongs to an existing chart state (unify is destructive)",
               sc, site=(unis[0].site.to_json() if unis else site_of(prog, comp, comp.node)))
-    news = [ev for ev in sc.events if ev.kind == "new" and ev.callee.endswith("fcfg.state.State")]
+    news = [ev for ev in own(sc) if ev.kind == "new" and ev.callee.endswith("fcfg.state.State")]
     okn = bool(news) and all(len(ev.args) > 2 and fresh_copy(ev.args[2]) for ev in news)
     ob.decide("R4", "C18.1", comp, "new-state-gets-the-copy", okn, "the new state carries the unified copy",
               "the new chart state does not carry the unified copy", sc, site=site_of(prog, comp, comp.node))
@@ -210,13 +210,13 @@ def run(eng, rep, tier):
     consts = {ev.value.const for ev in ss.events if ev.kind == "ret" and ev.value is not None and ev.value.has_const()}
     rec = [ev for ev, _ in calls(ss, "subsumes", own=True)]
     ob.decide("R1", "C18.4", fs_, "subsumes-value-and-every-feature",
-              both_answers(ss) and bool(rec) and any(ev.kind == "compare" and "value" in ev.site.text for ev in ss.events)
-              and any(ev.kind == "member" and "content" in ev.site.text for ev in ss.events),
+              both_answers(ss) and bool(rec) and any(ev.kind == "compare" and "value" in ev.site.text for ev in own(ss))
+              and any(ev.kind == "member" and "content" in ev.site.text for ev in own(ss)),
               "subsumes compares the values, requires every feature of the receiver and recurses",
               "subsumes does not compare (value, presence of every feature, sub-structures)", ss,
               site=site_of(prog, fs_, fs_.node))
     rec_u = [ev for ev, _ in calls(su, "unify", own=True)]
-    creates = [ev for ev in su.events if ev.kind == "new" and ev.callee == FS]
+    creates = [ev for ev in own(su) if ev.kind == "new" and ev.callee == FS]
     ob.decide("R1", "C18.4", fu, "unify-recurses-and-creates",
               bool(rec_u) and bool(creates) and all(any(" not in " in f[0] and f[1] for f in ev.facts) for ev in creates),
               "unify recurses into every feature of the argument and creates the ones the receiver lacks",
@@ -265,7 +265,7 @@ def _adds_new_key(prog, interp) -> bool:
     if f is None:
         return True
     s = interp.run_entry(f, "pyformlang.fcfg.state.StateProcessed")
-    for ev in s.events:
+    for ev in own(s):
         if ev.kind == "write" and ev.wkind == "subscript" and any(" not in " in fct[0] and fct[1] for fct in ev.facts):
             return True
     return False
